@@ -200,3 +200,127 @@ end XPathV.Theorems.NonVacuity.C11
 section AxiomAudit
 open XPathV.Theorems.NonVacuity.C11
 end AxiomAudit
+
+/-! ## the extended fragment: operands in `Frag2` that are not in `Frag` -/
+namespace XPathV.Theorems.NonVacuity.C11
+open XPathV XPathV.Model XPathV.Theorems.NonVacuity XPathV.PosSem
+open XPathV.PathSem XPathV.PredSem XPathV.PredSem2 XPathV.UnionSem XPathV.UnionSem2
+
+attribute [local instance] toyAlg
+
+def rStar : Ast := .axis (chE "") (.axis (chE "r") (.root "/"))
+/-- `[@x != @y]`: a path compared with a path -/
+def bCmp : Ast := .oper "!=" (.axis (atA "x") .none) (.axis (atA "y") .none)
+/-- `[count(@x) = 1]` -/
+def bCount : Ast := .oper "=" (.call "count" "" (.acons (.axis (atA "x") .none) .anil)) (.num "1")
+/-- `/r/*[@x != @y]` = `{b}`, `/r/*[count(@x) = 1]` = `{a[1], b}`: overlapping operands, neither in `Frag` -/
+def pC : Ast := .filter rStar bCmp
+def pN : Ast := .filter rStar bCount
+
+theorem rStar_frag2 : Frag2 true rStar := .axis _ _ (.axis _ _ (.root _) (by decide)) (by decide)
+theorem bCmp_frag2 : Frag2 false bCmp :=
+  .cmpPath _ _ _ (by decide) (.axis _ _ .none (by decide)) (.axis _ _ .none (by decide))
+theorem bCount_frag2 : Frag2 false bCount :=
+  .countR _ _ _ _ (by decide) (.axis _ _ .none (by decide)) (.axis _ _ (by decide) .none)
+theorem pC_frag2 : Frag2 true pC := .filter _ _ rStar_frag2 bCmp_frag2
+theorem pN_frag2 : Frag2 true pN := .filter _ _ rStar_frag2 bCount_frag2
+
+/-- the predicates, hence the operands, are outside the fragment of the theorems above -/
+theorem bCmp_not_frag : ¬ Frag false bCmp := by
+  intro h
+  generalize he : bCmp = e at h
+  generalize hk : false = k at h
+  cases h <;> simp [bCmp] at he hk
+  rename_i hp; subst he; cases hp
+theorem bCount_not_frag : ¬ Frag false bCount := by
+  intro h
+  generalize he : bCount = e at h
+  generalize hk : false = k at h
+  cases h <;> simp [bCount] at he hk
+  · rename_i hp; subst he; cases hp
+  · rename_i hp; obtain ⟨_, rfl, _⟩ := he; cases hp
+theorem pC_not_frag : ¬ Frag true pC := by
+  intro h; cases h with | filter _ _ _ hb => exact bCmp_not_frag hb
+theorem pN_not_frag : ¬ Frag true pN := by
+  intro h; cases h with | filter _ _ _ hb => exact bCount_not_frag hb
+
+theorem union_full_parsed : ParsesTo "/r/*[@x != @y] | /r/*[count(@x) = 1]" (.oper "|" pC pN) :=
+  ApiSem.parsesTo_eq (by decide +kernel)
+theorem nary_full_parsed : ParsesTo "//a | /r/*[@x != @y] | /r/*[count(@x) = 1]" (unionOf pA [pC, pN]) :=
+  ApiSem.parsesTo_eq (by decide +kernel)
+
+/-- **`C11_main_full`** on `/r/*[@x != @y] | /r/*[count(@x) = 1]` (the operands share `b`): all
+hypotheses discharged; the result is `{a[1], b}`, each once -/
+theorem C11_main_full_instance : ∃ (o : BOut), ∃ out,
+    sel (F := Int) d0 {} o.q (.node 0) = .ok out ∧ (refs out).Nodup ∧
+    ∀ x, x ∈ refs out ↔ x ∈ [Ref.node 2, .node 4] := by
+  obtain ⟨o, hb⟩ : ∃ o, build (fun _ => true) 100 true false (.oper "|" pC pN) {} {} = .ok o :=
+    exists_ok (by decide +kernel)
+  obtain ⟨out, nsA, gA, nsB, gB, nsU, h1, h2, _, _, _, h6, _, _, h9⟩ :=
+    Theorems.C11.C11_main_full (F := Int) wf_d0 {} rfl hashInj_d0 (fun _ => true) 100 pC pN pC_frag2 pN_frag2
+      {} {} o hb (.node 0) (by decide)
+  have e := value_of_eval h6 (v' := .nodes [.node 2, .node 4]) (by decide +kernel)
+  cases e
+  exact ⟨o, out, h1, h2, h9⟩
+
+/-- **`C11_main_full_unconditional`** on the same union: no hypothesis about keys or hashes -/
+theorem C11_main_full_unconditional_instance : ∃ (o : BOut), ∃ out,
+    sel (F := Int) d0 {} o.q (.node 0) = .ok out ∧ (refs out).Nodup ∧
+    ∀ x, x ∈ refs out ↔ x ∈ [Ref.node 2, .node 4] := by
+  obtain ⟨o, hb⟩ : ∃ o, build (fun _ => true) 100 true false (.oper "|" pC pN) {} {} = .ok o :=
+    exists_ok (by decide +kernel)
+  obtain ⟨out, nsA, gA, nsB, gB, nsU, h1, h2, _, _, _, h6, _, _, h9⟩ :=
+    Theorems.C11.C11_main_full_unconditional (F := Int) wf_d0 {} rfl d0_attrNames.1.triples (fun _ => true)
+      100 pC pN pC_frag2 pN_frag2 {} {} o hb (.node 0) (by decide)
+  have e := value_of_eval h6 (v' := .nodes [.node 2, .node 4]) (by decide +kernel)
+  cases e
+  exact ⟨o, out, h1, h2, h9⟩
+
+/-- **`C11_nary_full`** on `//a | /r/*[@x != @y] | /r/*[count(@x) = 1]` -/
+theorem C11_nary_full_instance : ∃ (o : BOut), ∃ out,
+    sel (F := Int) d0 {} o.q (.node 0) = .ok out ∧ (refs out).Nodup ∧
+    ∀ x, x ∈ refs out ↔ ∃ q ∈ [pA, pC, pN], x ∈ nodesAt d0 Int q (.node 0) := by
+  obtain ⟨o, hb⟩ : ∃ o, build (fun _ => true) 100 true false (unionOf pA [pC, pN]) {} {} = .ok o :=
+    exists_ok (by decide +kernel)
+  obtain ⟨out, ns, g, h1, h2, _, _, h5, _⟩ :=
+    Theorems.C11.C11_nary_full (F := Int) wf_d0 {} rfl hashInj_d0 (fun _ => true) 100 pA [pC, pN]
+      (frag2_of_frag true pA pA_frag)
+      (by
+        intro q hq; simp only [List.mem_cons, List.not_mem_nil, or_false] at hq
+        rcases hq with rfl | rfl
+        · exact pC_frag2
+        · exact pN_frag2) (by simp) {} o hb (.node 0) (by decide)
+  exact ⟨o, out, h1, h2, h5⟩
+example : Spec.evalTop (F := Int) d0 (unionOf pA [pC, pN]) (.node 0) = .ok (.nodes [.node 2, .node 4, .node 6]) := by
+  decide +kernel
+
+/-! the sequence form `/r/(a[count(@x) = 1], b[@x != @y])` -/
+
+def sAN : SeqStep := (chE "a", [bCount])
+def sBC : SeqStep := (chE "b", [bCmp])
+
+theorem seq_full_parsed : ParsesTo "/r/(a[count(@x) = 1], b[@x != @y])" (seqForm pR sAN [sBC]) :=
+  ApiSem.parsesTo_eq (by decide +kernel)
+
+/-- **`C11_sequence_full`** (`Frag2`, `StepOK2`, `build = .ok`, …): the result is `{a[1], b}` -/
+theorem C11_sequence_full_instance : ∃ (o : BOut), ∃ out,
+    sel (F := Int) d0 {} o.q (.node 0) = .ok out ∧ (refs out).Nodup ∧
+    ∀ x, x ∈ refs out ↔ x ∈ [Ref.node 2, .node 4] := by
+  obtain ⟨o, hb⟩ : ∃ o, build (fun _ => true) 100 true false (seqForm pR sAN [sBC]) {} {} = .ok o :=
+    exists_ok (by decide +kernel)
+  obtain ⟨out, ns, g, h1, h2, h3, _, h5⟩ :=
+    Theorems.C11.C11_sequence_full (F := Int) wf_d0 {} rfl hashInj_d0 (fun _ => true) 100 pR
+      (.axis _ _ (.root _) (by decide)) sAN [sBC]
+      ⟨by decide, by
+        intro b hb; simp only [sAN, List.mem_cons, List.not_mem_nil, or_false] at hb; subst hb
+        exact bCount_frag2⟩
+      (by
+        intro t ht; simp only [List.mem_cons, List.not_mem_nil, or_false] at ht; subst ht
+        refine ⟨by decide, ?_⟩
+        intro b hb; simp only [sBC, List.mem_cons, List.not_mem_nil, or_false] at hb; subst hb
+        exact bCmp_frag2) {} o hb (.node 0) (by decide)
+  have e := value_of_eval h2 (v' := .nodes [.node 2, .node 4]) (by decide +kernel)
+  cases e
+  exact ⟨o, out, h1, (h5 (by simp)).1, h3⟩
+
+end XPathV.Theorems.NonVacuity.C11
